@@ -3,6 +3,7 @@ package props
 import (
 	"bytes"
 	"fmt"
+	"github.com/tobgu/qframe/config/csv"
 	"math"
 	"os"
 	"strconv"
@@ -149,6 +150,65 @@ func TestC12Big(t *testing.T) {
 		checkBigColumn(t, qf, "s", want, fmt.Sprintf("ReadCSV (chunk %d) of a document with fields of %v bytes", chunk, lens))
 	}
 	evC12.CaseHash(true, seed, func() string { return fmt.Sprintf("volume case: CSV fields of %v bytes", lens) }, "long-cells-2^24")
+
+	// a column typed enum without declared values takes the values it meets: up to the 255 an enum can tell apart every
+	// cell reads back as written, one more is an error (never a cell that silently reads back as something else)
+	rng := hx.SplitMix(seed ^ 0x9e3779b9)
+	for _, distinct := range []int{254, 255, 256, 257} {
+		for _, emptyNull := range []bool{false, true} {
+			var cells []string
+			for v := 0; v < distinct; v++ {
+				cells = append(cells, fmt.Sprintf("v%03d", v))
+			}
+			for k := 0; k < 200; k++ {
+				cells = append(cells, cells[rng.Intn(distinct)]) // repeats, spread by the shuffle
+			}
+			for i := len(cells) - 1; i > 0; i-- {
+				j := rng.Intn(i + 1)
+				cells[i], cells[j] = cells[j], cells[i]
+			}
+			var doc strings.Builder
+			doc.WriteString("id,e\n")
+			for i, c := range cells {
+				if emptyNull && i%50 == 7 {
+					doc.WriteString(strconv.Itoa(i) + ",\n") // nulls are no value
+				}
+				doc.WriteString(strconv.Itoa(i) + "," + c + "\n")
+			}
+			qf := qframe.ReadCSV(strings.NewReader(doc.String()), csv.Types(map[string]string{"e": "enum"}), csv.EmptyNull(emptyNull))
+			what := fmt.Sprintf("ReadCSV of a column typed enum with %d different values (EmptyNull=%v)", distinct, emptyNull)
+			if distinct > 255 {
+				if qf.Err == nil {
+					t.Fatalf("%s succeeded: an enum cannot tell that many values apart, some cell must read back wrong", what)
+				}
+				continue
+			}
+			if qf.Err != nil {
+				t.Fatalf("%s failed: %v", what, qf.Err)
+			}
+			v, err := qf.EnumView("e")
+			if err != nil {
+				t.Fatalf("%s: %v", what, err)
+			}
+			r := 0
+			for i, c := range cells {
+				if emptyNull && i%50 == 7 {
+					if v.ItemAt(r) != nil {
+						t.Fatalf("%s: the empty cell before row %d reads back as %q", what, i, *v.ItemAt(r))
+					}
+					r++
+				}
+				if got := v.ItemAt(r); got == nil || *got != c {
+					t.Fatalf("%s: cell %q of row %d reads back as %v", what, c, i, hx.Col{Kind: hx.KString, S: []*string{got}}.Cell(0))
+				}
+				r++
+			}
+			if r != v.Len() {
+				t.Fatalf("%s: %d rows, want %d", what, v.Len(), r)
+			}
+		}
+	}
+	evC12.CaseHash(true, seed^1, func() string { return "enum column without declared values: 254..257 different values" }, "enum-cardinality-limit")
 }
 
 // TestC09Big: the writers on a frame whose output is several MiB (more than any internal write buffer): 70000 rows
